@@ -1,8 +1,8 @@
 import Firefly.Proof.AmlTreeOps
 import Firefly.Proof.AmlParser
 /-!
-Total-correctness reasoning about the parser model: tree-level facts (`TreeOK`, the invariant of the
-first pass of a table parsed into a pool without freed slots) and the run lemmas of the primitives.
+Tree-level facts shared by the total-correctness / panic-freedom proofs about the parser model: payloads
+(`Pay`, `SamePay`: the tree operations only change links), `SameLinks`, `KeepsLinks`/`KeepsLive`, `InfoOK`.
 -/
 namespace Firefly.AmlParser
 open Firefly.AmlLex Firefly.AmlTree Firefly.C13
@@ -106,7 +106,7 @@ theorem appendAfter_samePay {t t' : ObjectTree} {obj arg n : Nat} (e : t.appendA
 theorem detach_samePay {t t' : ObjectTree} {obj arg : Nat} (e : t.detach obj arg = .ok t') : SamePay t t' :=
   (kp_detach (SamePay.refl t) obj arg).run t' e
 
-/-! ## `TreeOK`: the tree invariant of the first pass -/
+/-! ## payload updates keep the links -/
 
 /-- same links, liveness and `index` everywhere -/
 structure SameLinks (t t' : ObjectTree) : Prop where
@@ -172,145 +172,5 @@ theorem sameLinks_setAt (t : ObjectTree) (i : Nat) (f : Obj → Obj) (hf : Keeps
 
 /-- `pOpcodeTable[i]` exists -/
 def InfoOK (i : Nat) : Prop := (opFlags i).isSome = true
-
-/-- the tree invariant of the first pass of a table parsed into a pool without freed slots -/
-structure TreeOK (t : ObjectTree) : Prop where
-  wf : WF t
-  allLive : ∀ i, i < t.pool.size → live t i = true
-  mono : ∀ x, x < t.pool.size → C13.P t x ≠ INV → C13.P t x < x
-  info : ∀ x, x < t.pool.size → InfoOK (slot t x).infoIndex
-  nonempty : 0 < t.pool.size
-
-theorem TreeOK.head {t : ObjectTree} (h : TreeOK t) : t.freeListHeadIndex = InvalidIndex := by
-  obtain ⟨fl, hc, _⟩ := h.wf.free
-  have hh := freeChain_head h.wf.size_le hc
-  by_cases e : t.freeListHeadIndex = INV
-  · exact e
-  · have := hh.2 e
-    have := h.allLive _ this.1
-    simp_all
-
-theorem treeOK_setAt {t : ObjectTree} (h : TreeOK t) (i : Nat) (f : Obj → Obj) (hf : KeepsLinks f)
-    (hl : KeepsLive t i f)
-    (hinfo : i < t.pool.size → InfoOK (f (slot t i)).infoIndex) : TreeOK (setAt t i f) := by
-  have sl := sameLinks_setAt t i f hf hl
-  refine ⟨wf_of_sameLinks h.wf sl, ?_, ?_, ?_, by simpa using h.nonempty⟩
-  · intro x hx; rw [sl.live]; exact h.allLive x (by simpa using hx)
-  · intro x hx hp; rw [sl.p] at hp ⊢; exact h.mono x (by simpa using hx) hp
-  · intro x hx
-    have hx' : x < t.pool.size := by simpa using hx
-    rw [slot_setAt']
-    split
-    · rename_i hc; obtain ⟨rfl, _⟩ := hc; exact hinfo hx'
-    · exact h.info x hx'
-
-theorem mono_not_anc {t : ObjectTree} (h : TreeOK t) (a : Nat) :
-    ∀ f x, x < a → x < t.pool.size → C13.isAncestorOrSelf t a f x = false := by
-  intro f
-  induction f with
-  | zero => intro x _ _; rfl
-  | succ f ih =>
-    intro x hxa hx
-    unfold C13.isAncestorOrSelf
-    have hne : x ≠ a := by omega
-    by_cases hp : C13.P t x = INV
-    · simp [hne, hp]
-    · have hlt := h.mono x hx hp
-      have hlive := (h.wf.lP (h.allLive x hx)).lp
-      have hps : C13.P t x < t.pool.size := by
-        rcases hlive with e | e
-        · exact absurd e hp
-        · exact live_lt e
-      simp [hne, ih (C13.P t x) (by omega) hps]
-
-/-- `newObject` on a pool without freed slots: the object is pushed at position `pool.size` -/
-theorem treeOK_newObject {t : ObjectTree} (h : TreeOK t) (opcode info th : Nat) (hsz : t.pool.size < INV)
-    (hop : opcode ≠ pOpIntFreedObject) (hinfo : InfoOK info) :
-    ∃ t', t.newObject opcode info th = .ok (t', t.pool.size) ∧ TreeOK t' ∧
-      t'.pool.size = t.pool.size + 1 ∧ (∀ x, x < t.pool.size → slot t' x = slot t x) ∧
-      slot t' t.pool.size = initObj opcode info th { index := t.pool.size } := by
-  obtain ⟨t', i, e, w', fr⟩ := newObject_wf h.wf opcode info th hsz hop
-  have hh := h.head
-  have e2 : t.newObject opcode info th =
-      .ok ({ t with pool := t.pool.push (initObj opcode info th { index := t.pool.size }) }, t.pool.size) := by
-    unfold ObjectTree.newObject
-    simp only [hh, ne_eq, not_true_eq_false, ite_false]
-    rfl
-  rw [e2] at e
-  cases e
-  have hslot : ∀ x, x < t.pool.size → slot { t with pool := t.pool.push (initObj opcode info th { index := t.pool.size }) } x = slot t x := by
-    intro x hx; rw [slot_push]; simp [Nat.ne_of_lt hx]
-  have hnew : slot { t with pool := t.pool.push (initObj opcode info th { index := t.pool.size }) } t.pool.size
-      = initObj opcode info th { index := t.pool.size } := by
-    rw [slot_push]; simp
-  refine ⟨_, e2, ⟨w', ?_, ?_, ?_, by simp⟩, by simp, hslot, hnew⟩
-  · intro x hx
-    by_cases hxn : x = t.pool.size
-    · subst hxn; exact fr.liven
-    · rw [fr.livex x hxn]; exact h.allLive x (by simp at hx; omega)
-  · intro x hx hp
-    by_cases hxn : x = t.pool.size
-    · subst hxn; exact absurd fr.pn hp
-    · have hx' : x < t.pool.size := by simp at hx; omega
-      have : C13.P { t with pool := t.pool.push (initObj opcode info th { index := t.pool.size }) } x = C13.P t x := by
-        unfold C13.P; rw [hslot x hx']
-      rw [this] at hp ⊢
-      exact h.mono x hx' hp
-  · intro x hx
-    by_cases hxn : x = t.pool.size
-    · subst hxn; rw [hnew]; exact hinfo
-    · have hx' : x < t.pool.size := by simp at hx; omega
-      rw [hslot x hx']; exact h.info x hx'
-
-/-- `append(obj, arg)` with `obj < arg` and `arg` detached -/
-theorem treeOK_append {t : ObjectTree} (h : TreeOK t) {obj arg : Nat} (hlt : obj < arg) (ha : arg < t.pool.size)
-    (hp : C13.P t arg = INV) :
-    ∃ t', t.append obj arg = .ok t' ∧ TreeOK t' ∧ SamePay t t' ∧
-      (∀ x, C13.P t' x = if x = arg then obj else C13.P t x) ∧
-      (∀ x, La t' x = if x = obj then arg else La t x) ∧
-      (∀ x, Fi t' x = if x = obj ∧ La t obj = INV then arg else Fi t x) ∧
-      (∀ x, Nx t' x = if x = arg then INV else if x = La t obj ∧ La t obj ≠ INV then arg else Nx t x) := by
-  have ho : obj < t.pool.size := by omega
-  have hpre : appendPre t obj arg = true := by
-    simp only [appendPre, Bool.and_eq_true, decide_eq_true_eq, Bool.not_eq_true']
-    exact ⟨⟨⟨h.allLive obj ho, h.allLive arg ha⟩, hp⟩, mono_not_anc h arg _ obj hlt ho⟩
-  obtain ⟨t', e, w', hsz, hlive, _, hP, _, hNx, hFi, hLa⟩ := append_wf h.wf hpre
-  have sp := append_samePay e
-  refine ⟨t', e, ⟨w', ?_, ?_, ?_, by rw [hsz]; exact h.nonempty⟩, sp, hP, hLa, hFi, hNx⟩
-  · intro x hx; rw [hlive]; exact h.allLive x (by rw [← hsz]; exact hx)
-  · intro x hx hpx
-    rw [hP] at hpx ⊢
-    split
-    · rename_i hxa; subst hxa; exact hlt
-    · rename_i hxa; simp only [hxa, ite_false] at hpx; exact h.mono x (by rw [← hsz]; exact hx) hpx
-  · intro x hx
-    have := sp.pay x
-    have hi : (slot t' x).infoIndex = (slot t x).infoIndex := by
-      have := congrArg (fun p => p.2.1) this; exact this
-    rw [hi]; exact h.info x (by rw [← hsz]; exact hx)
-
-/-- `appendAfter(obj, arg, nextTo)` with `obj < arg`, `arg` detached and `nextTo` a child of `obj` -/
-theorem treeOK_appendAfter {t : ObjectTree} (h : TreeOK t) {obj arg nextTo : Nat} (hlt : obj < arg)
-    (ha : arg < t.pool.size) (hp : C13.P t arg = INV) (hn : nextTo < t.pool.size) (hpn : C13.P t nextTo = obj) :
-    ∃ t', t.appendAfter obj arg nextTo = .ok t' ∧ TreeOK t' ∧ SamePay t t' ∧
-      (∀ x, C13.P t' x = if x = arg then obj else C13.P t x) := by
-  have ho : obj < t.pool.size := by omega
-  have hpre : appendAfterPre t obj arg nextTo = true := by
-    simp only [appendAfterPre, appendPre, Bool.and_eq_true, decide_eq_true_eq, Bool.not_eq_true']
-    exact ⟨⟨⟨⟨⟨h.allLive obj ho, h.allLive arg ha⟩, hp⟩, mono_not_anc h arg _ obj hlt ho⟩, h.allLive nextTo hn⟩, hpn⟩
-  obtain ⟨t', e, w', hsz, hlive, _, hP, _, _, _, _⟩ := appendAfter_wf h.wf hpre
-  have sp := appendAfter_samePay e
-  refine ⟨t', e, ⟨w', ?_, ?_, ?_, by rw [hsz]; exact h.nonempty⟩, sp, hP⟩
-  · intro x hx; rw [hlive]; exact h.allLive x (by rw [← hsz]; exact hx)
-  · intro x hx hpx
-    rw [hP] at hpx ⊢
-    split
-    · rename_i hxa; subst hxa; exact hlt
-    · rename_i hxa; simp only [hxa, ite_false] at hpx; exact h.mono x (by rw [← hsz]; exact hx) hpx
-  · intro x hx
-    have := sp.pay x
-    have hi : (slot t' x).infoIndex = (slot t x).infoIndex := by
-      have := congrArg (fun p => p.2.1) this; exact this
-    rw [hi]; exact h.info x (by rw [← hsz]; exact hx)
 
 end Firefly.AmlParser
